@@ -289,3 +289,26 @@ func H_C04_Strings() {
 	doc = withSymbolicLeaf(doc, k, rt.NondetString("text"), &ctr)
 	c04parse(doc, "", site)
 }
+
+// H_C04_Twice: two detections / parses in a row in one process, the first on an input that makes the line scanner
+// give up (a line longer than its buffer), on junk, or on a well-formed document: the second call returns as well
+// (nothing the first call acquired is left behind).
+func H_C04_Twice() {
+	first := rt.NewTextStream("SPDXVersion: "+rt.NondetString("v"), rt.NondetString("line"))
+	switch rt.NondetChoice("first", 3) {
+	case 1:
+		first.SetOverlongLine(1 + rt.NondetChoice("which", 2))
+	case 2:
+		first = rt.NewJSONStream(cdxDoc("1.5"))
+	}
+	rt.Exits(func() { reader.New().ParseStream(first) })
+	if rt.NondetChoice("second", 2) == 0 {
+		c04parse(spdxDoc(), "", "C04.twice.spdx")
+		return
+	}
+	s := rt.NewTextStream(rt.NondetString("line2"))
+	var err error
+	exited := rt.Exits(func() { _, err = reader.New().ParseStream(s) })
+	rt.Assert(!exited, "C04.twice.noexit")
+	rt.Assert(err != nil, "C04.twice.text")
+}
